@@ -558,7 +558,7 @@ func init() {
 	register(&CheckDef{
 		ID:    "C18",
 		Title: "Hint files faithfully index the merged data files",
-		Reach: []string{"done", "hint-entry-checked", "several-output-files"},
+		Reach: []string{"done", "hint-entry-checked", "several-output-files", "second-generation"},
 		Jobs: func(tier string) []JobSpec {
 			var js []JobSpec
 			add := func(name string, params map[string]int64) {
@@ -571,11 +571,14 @@ func init() {
 				add("k3", merge(base, p("k", 3, "ops", opPut|opDelete)))
 				add("k2-batch-btree", merge(base, p("k", 2, "ops", opPut|opBatch, "bmax", 2, "vlens", 1, "index", 1)))
 				add("k2-mmap", merge(base, p("k", 2, "ops", opPut|opDelete, "io", 1)))
+			add("second-merge-generation", merge(base, p("premerge", 2, "k", 2, "ops", opPut|opDelete, "vlens", 1)))
 			} else {
 				add("k4", merge(base, p("k", 4, "ops", opPut|opDelete)))
 				add("k3-pool3", merge(base, p("k", 3, "pool", 3, "klen", 3, "ops", opPut|opDelete, "vlens", 3, "vbig", 25)))
 				add("k3-batch", merge(base, p("k", 3, "ops", opPut|opDelete|opBatch, "bmax", 2, "vlens", 1)))
 				add("k3-mmap-skiplist", merge(base, p("k", 3, "ops", opPut|opDelete, "io", 1, "index", 2)))
+			add("second-merge-generation-k3", merge(base, p("premerge", 2, "k", 3, "ops", opPut|opDelete)))
+			add("second-merge-generation-mmap", merge(base, p("premerge", 2, "k", 2, "ops", opPut|opDelete, "io", 1)))
 			}
 			js = append(js, JobSpec{Name: "witness", Harness: "root", Func: "verifHarnessC18", Params: merge(base, p("k", 1, "ops", opPut, "witness", 1)), Scale: scaleDF(32), Witness: true})
 			return js
